@@ -39,6 +39,12 @@ type LockSpec struct {
 	// ReadOnlyOK: fields whose *reads* need no lock (only writes are guarded),
 	// with reason — e.g. immutable after construction.
 	WriteOnly map[string]string
+	// Variant hooks (local mutex guarding captured locals): when set they
+	// replace the field-based mutex / access classification and the
+	// function set.
+	MutexIs  func(recv ssa.Value) bool
+	AccessOf func(in ssa.Instruction) (name string, write bool, ok bool)
+	Funcs    []*ssa.Function
 }
 
 var asyncCallees = map[string]bool{
@@ -80,9 +86,15 @@ func (sp *LockSpec) lockOp(in ssa.Instruction) int {
 		if recv == nil {
 			return 0
 		}
-		fa, ok := recv.(*ssa.FieldAddr)
-		if !ok || fieldAddrName(fa) != sp.Mutex {
-			return 0
+		if sp.MutexIs != nil {
+			if !sp.MutexIs(recv) {
+				return 0
+			}
+		} else {
+			fa, ok := recv.(*ssa.FieldAddr)
+			if !ok || fieldAddrName(fa) != sp.Mutex {
+				return 0
+			}
 		}
 		switch calleeName(&x.Call) {
 		case "(*sync.Mutex).Lock", "(*sync.RWMutex).Lock":
@@ -227,6 +239,11 @@ func (sp *LockSpec) analyseFunc(fn *ssa.Function, byName map[*ssa.Function]bool,
 			if record {
 				var fa ssa.Value
 				var name string
+				if sp.AccessOf != nil {
+					if n, w, ok := sp.AccessOf(ins); ok {
+						lf.accesses = append(lf.accesses, lsAccess{in: ins, field: n, write: w, state: s})
+					}
+				} else {
 				switch x := ins.(type) {
 				case *ssa.FieldAddr:
 					fa, name = x, fieldAddrName(x)
@@ -238,6 +255,7 @@ func (sp *LockSpec) analyseFunc(fn *ssa.Function, byName map[*ssa.Function]bool,
 					if sp.guarded(name) {
 						lf.accesses = append(lf.accesses, lsAccess{in: ins, field: name, write: false, state: s})
 					}
+				}
 				}
 				sp.recordCalls(lf, ins, s, byName, implementers)
 			}
@@ -366,7 +384,10 @@ func (sp *LockSpec) recordCalls(lf *lsFunc, ins ssa.Instruction, s int, inPkg ma
 // Lockset runs one LOCKSET instance over every function of the package.
 func (c *Ctx) Lockset(sp LockSpec) {
 	c.Rule("LOCKSET/" + sp.Name)
-	funcs := c.AllFuncs(sp.Pkg)
+	funcs := sp.Funcs
+	if funcs == nil {
+		funcs = c.AllFuncs(sp.Pkg)
+	}
 	inPkg := map[*ssa.Function]bool{}
 	for _, f := range funcs {
 		inPkg[f] = true
